@@ -55,7 +55,14 @@ def sample_of(job, k=0):
 # its fixed storage (C01, C03 guards) did not "transfer all its memory" (C12)
 # ... and a stack / iteration allocator that hands out memory overlapping what is still live (C01 guards) after
 # unwinding or switching did not keep "everything allocated before the marker valid" (C06, C07)
-ALSO_RULES_OF = {"C05": ("C16",), "C12": ("C01", "C03"), "C06": ("C01",), "C07": ("C01",)}
+# ("Cxx" = every guard of that property, "Cxx/Rule" = one guard.)  C01 names temporary_allocator among the allocator
+# kinds and C05 the temporary block source: their checks run the temp driver too and report its overlap / content /
+# block-return guards; C03 runs fallback compositions (try_ functions never throw, never grow); C05 runs the deeply
+# tracked library allocators (every block goes back to the source)
+ALSO_RULES_OF = {"C05": ("C16", "C14/AllFreedAtExit", "C09/UpstreamBlocksReturnedAtEnd"), "C12": ("C01", "C03"),
+                 "C06": ("C01",), "C07": ("C01",), "C03": ("C01",),
+                 "C01": ("C14/TemporaryMemoryDisjoint", "C14/ContentIntactUntilScopeEnds", "C14/NoTwoLiveThreadsShareAStack",
+                         "C14/CasResultAsModel", "C14/HeldStackMarkedInUse")}
 
 
 def run_trace_property(prop, tier, seed, jobs, model_runs=(), assumptions=None, rule=None):
@@ -148,6 +155,13 @@ def run_seq_property(prop, tier, seed):
         # the stateless low-level allocators (heap, malloc, new, virtual memory): driver `lowlevel`, contract FenceTrace
         from . import plans_lowlevel
         jobs += plans_lowlevel.history_jobs(prop, tier, seed, leak_only=(prop == "C15"))
+    if prop in ("C01", "C05"):
+        # temporary_allocator / temporary block source (driver `temp`): a reduced C14 plan
+        from . import plans_temp
+        jobs += plans_temp.jobs_c14(prop, tier, seed, reduced=True)
+    if prop in ("C03", "C05"):
+        from . import plans_compose
+        jobs += plans_compose.extra_jobs(prop, tier, seed)
     if prop == "C18":      # the table part: min_block_size suffices (driver `tables`, contract TablesTrace)
         from . import plans_tables
         jobs += plans_tables.jobs("C18", tier, seed)
